@@ -349,6 +349,8 @@ pub fn primes(n: u32) -> Vec<u32> {
             }
         }
     }
+    // The early exit above is never reached for n = 0 and n = 1.
+    primes.truncate(n as usize);
     primes
 }
 
